@@ -113,14 +113,17 @@ class Script(Behaviour):
         return self.drop_at is not None and index == self.drop_at
 
 
-def make_statements(rng, n):
+def make_statements(rng, n, blank_ok=False):
     g = GCodeBuilder()
     rec = RecordingWriter()
     g.add_writer(rec)
     g.set_axis(x=0, y=0, z=0)
     while len(rec.payloads) < n + 1:
         r = rng.random()
-        if r < 0.5:
+        if blank_ok and r < 0.08:
+            # an empty statement: a Grbl-like controller acknowledges it like any other line
+            g.write(rng.choice(["", "  "]))
+        elif r < 0.5:
             g.move(x=round(rng.uniform(-50, 50), 3), y=round(rng.uniform(-50, 50), 3), F=1200)
         elif r < 0.7:
             g.rapid(z=round(rng.uniform(0, 5), 2))
@@ -142,7 +145,9 @@ def run_scenario(ctx, col, case, tag, rng, transport, regime, lat, n, errors_at,
     else:
         dev = GrblTCP(beh).start()
         w = SocketWriter("127.0.0.1", dev.port)
-    statements = make_statements(rng, n)
+    statements = make_statements(rng, n, blank_ok=(transport == "socket"))
+    if any(not st.strip() for st in statements):
+        col.count("scenarios_with_blank_statements")
     client = []          # (i, t_call, t_ret, outcome, exception repr, X reading after return)
     state = {"disconnect_t": None, "hung": False}
     info = {"tag": tag, "transport": transport, "regime": regime, "latency": lat, "n": n,
